@@ -120,7 +120,7 @@ def run(ctx):
                      "ctparse + exhaustion of ctparse_gen (+ debug=True); distinct = distinct (text, reference time, options)")
     ctx.assumptions += ["no wall-clock timeout in the sweep (timeout=0; a smoke subset uses a tiny real timeout); termination without timeout is the model-level result (Derive: Decreasing)",
                         "depth-0 (exhaustive) runs only for texts with <= 8 matches and <= 30 candidate sequences"]
-    for fam in ("date", "clock", "dur", "pod"):
+    for fam in ("date", "clock", "dur", "pod", "podrange", "range"):
         ctx.mc("Derive", "MC_Derive_%s_%s.cfg" % (fam, "q" if ctx.quick else "t"), timeout=3000, heap="8g")
     ctx.mc("MC_SearchImpl", "MC_SearchImpl_I1_d0x.cfg")
     ctx.mc("MC_SearchImpl", "MC_SearchImpl_I2_d2.cfg")
